@@ -45,6 +45,34 @@ MAP_CORE = {
                 exists|o: Option<V>| #[trigger] diff.ensures((&x, self@[x], other@[x]), o) && (o is Some <==> r@.contains_key(x)) && (o is Some ==> r@[x] == o->0),'''),
 }
 
+# shared iteration.  `rem()` is the (non-prophetic) sequence of items an iterator state will still yield; `remaining()` is the same
+# sequence in the vocabulary of vstd's iterator protocol (prophetic, what a `for` loop sees).  Unit WB proves this contract on the real
+# `iter`, and proves that the real `Iter::next` obeys the protocol laws in every state; clients (WBAPI, PT) see the contract only.
+MAP_ITER = ('it', '''requires self.wf(),
+        ensures
+            // the iterator will yield exactly the entries of the map, in strictly increasing key order, each once
+            it.rem().len() == self@.dom().len(),
+            forall|i: int, j: int| 0 <= i < j < it.rem().len() ==> (#[trigger] it.rem()[i]).0 < (#[trigger] it.rem()[j]).0,
+            forall|i: int| 0 <= i < it.rem().len() ==> self@.contains_key((#[trigger] it.rem()[i]).0) && self@[it.rem()[i].0] == it.rem()[i].1,
+            forall|k: u32| #[trigger] self@.contains_key(k) ==> exists|i: int| 0 <= i < it.rem().len() && (#[trigger] it.rem()[i]).0 == k,
+            // the same, in the vocabulary of the iterator protocol
+            it.remaining().len() == self@.dom().len(),
+            forall|i: int, j: int| 0 <= i < j < it.remaining().len() ==> (#[trigger] it.remaining()[i]).0 < (#[trigger] it.remaining()[j]).0,
+            forall|i: int| 0 <= i < it.remaining().len() ==> self@.contains_key((#[trigger] it.remaining()[i]).0) && self@[it.remaining()[i].0] == *it.remaining()[i].1,
+            forall|k: u32| #[trigger] self@.contains_key(k) ==> exists|i: int| 0 <= i < it.remaining().len() && (#[trigger] it.remaining()[i]).0 == k,''')
+
+# the protocol view of Iter (same text in the proving unit and in the clients; `rem` is defined in WB and uninterpreted in the clients)
+ITER_PROTOCOL = '''
+impl<'a, V: Clone> vstd::std_specs::iter::IteratorSpecImpl for Iter<'a, V> {
+    // the laws hold in EVERY state of the iterator (also over lazily mapped subtrees), so no well-formedness side condition is needed
+    open spec fn obeys_prophetic_iter_laws(&self) -> bool { true }
+    closed spec fn remaining(&self) -> Seq<(u32, &'a V)> { Seq::new(self.rem().len(), |i: int| (self.rem()[i].0, &self.rem()[i].1)) }
+    open spec fn will_return_none(&self) -> bool { true }
+    closed spec fn decrease(&self) -> Option<nat> { Some(self.rem().len()) }
+    closed spec fn peek(&self, i: int) -> Option<(u32, &'a V)> { if 0 <= i < self.rem().len() { Some((self.rem()[i].0, &self.rem()[i].1)) } else { None } }
+}
+'''
+
 # entry API (real text of map.rs, verified on top of MAP_CORE)
 ENTRY_INV = '''match e {
             Entry::Occupied(o) => old(self)@.contains_key(key) && o.key() == key && *o.mref() == *old(self) && *final(o.mref()) == *final(self),
@@ -108,4 +136,33 @@ SET = {
         ensures r.wf(), r@ == self@.union(other@),'''),
     'difference': ('r', '''requires self.wf(), other.wf(),
         ensures r.wf(), r@ == self@.difference(other@),'''),
+    'iter': ('it', '''requires self.wf(),
+        ensures
+            // yields exactly the elements of the set, in strictly increasing order, each once
+            it.rem().len() == self@.len(),
+            forall|i: int, j: int| 0 <= i < j < it.rem().len() ==> it.rem()[i] < it.rem()[j],
+            forall|i: int| 0 <= i < it.rem().len() ==> self@.contains(#[trigger] it.rem()[i]),
+            forall|k: u32| #[trigger] self@.contains(k) ==> exists|i: int| 0 <= i < it.rem().len() && #[trigger] it.rem()[i] == k,
+            // hence the first item is the minimum of the set
+            it.rem().len() > 0 ==> set_min(self@, it.rem()[0]),
+            it.rem().len() == 0 ==> self@ =~= Set::<u32>::empty(),'''),
 }
+
+SET_VOCAB = '''
+pub open spec fn set_min(s: Set<u32>, y: u32) -> bool { s.contains(y) && forall|z: u32| s.contains(z) ==> y <= z }
+'''
+
+# WBTreeSetIter (real text of set.rs): rem() = the keys of the underlying map iterator; next obeys the protocol laws in every state
+SETITER_GHOST = '''
+    pub closed spec fn rem(&self) -> Seq<u32> { Seq::new(self.map_iter.rem().len(), |i: int| self.map_iter.rem()[i].0) }
+'''
+SETITER_PROTOCOL = '''
+impl<'a> vstd::std_specs::iter::IteratorSpecImpl for WBTreeSetIter<'a> {
+    open spec fn obeys_prophetic_iter_laws(&self) -> bool { true }
+    closed spec fn remaining(&self) -> Seq<u32> { self.rem() }
+    open spec fn will_return_none(&self) -> bool { true }
+    closed spec fn decrease(&self) -> Option<nat> { Some(self.rem().len()) }
+    closed spec fn peek(&self, i: int) -> Option<u32> { if 0 <= i < self.rem().len() { Some(self.rem()[i]) } else { None } }
+}
+'''
+
